@@ -72,10 +72,17 @@ def run_case(case: dict) -> CaseResult:
         if case.get("reconnect_in_on_stop") and not closing_down[0]:
             # the session has ended: a new attempt made right here (before the handler's first await) must be accepted
             classes.add("reconnect_from_on_stop")
+            if case["reconnect_in_on_stop"] == "after_await":
+                classes.add("reconnect_from_on_stop_after_await")
+                await asyncio.sleep(1 / 64)  # (a back-off: the handler is now a task the client itself is tracking)
             n_tcp = len(env.tcp_calls)
             env.tcp_script = [("refuse", D)]
             try:
-                await cli.start_connection(on_stop)
+                try:
+                    await asyncio.wait_for(cli.start_connection(on_stop), 100.0)  # (longer than every connect-phase limit)
+                except asyncio.TimeoutError:
+                    viol.append(V("c19:wedged:start-hung-in-on_stop", "start_connection() called from the stop callback neither started a TCP attempt nor failed within 100 s"))
+                    return
                 viol.append(V("c19:harness:start-succeeded-on-refused-tcp", "in on_stop"))
             except APIConnectionError as e:
                 if len(env.tcp_calls) == n_tcp:
@@ -488,7 +495,7 @@ def _case(draw, tier):
                 steps.append({"op": "dev", "what": draw(st.sampled_from(["eof", "reset", "garbage", "discreq", "pingtimeout", "resp+discreq", "resp+garbage", "resp+eof"]))})
             s = "IDLE"
     return {"noise": draw(st.integers(0, 3)) == 0, "keepalive": 2.0, "rot": draw(st.integers(0, 50)), "password": draw(st.sampled_from([None, "pw"])), "steps": steps,
-            "reconnect_in_on_stop": draw(st.integers(0, 3)) == 0}
+            "reconnect_in_on_stop": draw(st.sampled_from([False, False, False, True, "after_await"]))}
 
 
 def strategy(tier):
@@ -541,6 +548,7 @@ def enumerated(tier):
             yield {"noise": noise, "rot": 30, "steps": [{"op": "start", "tcp": tcp, "interfere": None}] + second}
         for what in ("eof", "reset", "garbage", "discreq", "pingtimeout", "resp+discreq"):
             yield {"noise": noise, "rot": 40, "reconnect_in_on_stop": True, "steps": [second[0], {"op": "dev", "what": what}] + second}
+            yield {"noise": noise, "rot": 41, "reconnect_in_on_stop": "after_await", "steps": [second[0], {"op": "dev", "what": what}] + second}
         for force in (False, True):
             yield {"noise": noise, "rot": 41, "reconnect_in_on_stop": True, "steps": [second[0], {"op": "disconnect", "force": force}] + second}
         for what in ("eof", "reset", "garbage", "discreq", "pingtimeout", "resp+discreq", "resp+garbage", "resp+eof"):
